@@ -92,6 +92,17 @@ impl IndSys {
 		self.zigzag = true;
 		self
 	}
+	/// per (indicator, slot): how often the documented rule said buy / sell / silent / left it open
+	pub fn totals(&self) -> Vec<(String, usize, [u64; 4])> {
+		let mut v = vec![];
+		for (i, c) in self.cfgs.iter().enumerate() {
+			for s in 0..c.size().1 as usize {
+				let st = &self.stats[i][s];
+				v.push((c.const_name().to_string(), s, [st.buy.load(Ordering::Relaxed), st.sell.load(Ordering::Relaxed), st.silent.load(Ordering::Relaxed), st.exempt.load(Ordering::Relaxed)]));
+			}
+		}
+		v
+	}
 	/// slots of the signal oracle that never said "buy" / "sell" / "silent" anywhere
 	pub fn unexercised(&self) -> Vec<String> {
 		let mut v = vec![];
